@@ -19,7 +19,7 @@ for d in sorted(os.listdir(root)):
     else:
         parts = []
         for prop, rc, only in runs:
-            v = {0: 'NOT detected (exit 0)', 1: 'DETECTED (VIOLATION%s)' % (', replayed natively' if ('r2m' not in d and 'r3m' not in d) or d == 'C01-r2m1' else '; native replay skipped in this matrix run'), 2: 'inconclusive (exit 2)', 3: 'patch does not apply'}.get(rc, 'rc=%d' % rc)
+            v = {0: 'NOT detected (exit 0)', 1: 'DETECTED (VIOLATION%s)' % (', replayed natively' if ('r2m' not in d and 'r3m' not in d and 'r4m' not in d and d != 'C06-m2') or d == 'C01-r2m1' else '; native replay skipped in this matrix run'), 2: 'inconclusive (exit 2)', 3: 'patch does not apply'}.get(rc, 'rc=%d' % rc)
             parts.append('./check %s%s: %s' % (prop, '' if only == '-' else ' --only %r' % only, v))
         verdict = '; '.join(parts)
     rows.append((d, meta.get('breaks_property'), (meta.get('summary') or '')[:260].replace('\n', ' ').replace('|', '/'), verdict))
@@ -33,7 +33,7 @@ with open(os.path.join(root, 'RESULTS.md'), 'w') as f:
     for r in rows:
         f.write('| %s | %s | %s | %s |\n' % r)
     n_det = sum(1 for r in rows if 'DETECTED (VIOLATION' in r[3])
-    r1=[r for r in rows if 'r2m' not in r[0] and 'r3m' not in r[0]]; r2=[r for r in rows if 'r2m' in r[0]]; r3=[r for r in rows if 'r3m' in r[0]]
-    f.write('\nRound 1 (written before any check existed): %d of %d detected. Round 2 (16 further changes for 8 claimed properties, written by fresh sub-agents told only which round-1 changes to avoid): %d of %d detected. Round 3 (12 further changes for 6 claimed properties): %d of %d detected.\n' % (sum(1 for r in r1 if 'DETECTED (VIOLATION' in r[3]), len(r1), sum(1 for r in r2 if 'DETECTED (VIOLATION' in r[3]), len(r2), sum(1 for r in r3 if 'DETECTED (VIOLATION' in r[3]), len(r3)))
+    r1=[r for r in rows if 'r2m' not in r[0] and 'r3m' not in r[0] and 'r4m' not in r[0]]; r4=[r for r in rows if 'r4m' in r[0]]; r2=[r for r in rows if 'r2m' in r[0]]; r3=[r for r in rows if 'r3m' in r[0]]
+    f.write('\nRound 1 (written before any check existed): %d of %d detected. Round 2 (16 further changes for 8 claimed properties, written by fresh sub-agents told only which round-1 changes to avoid): %d of %d detected. Round 3 (12 further changes for 6 claimed properties): %d of %d detected. Round 4 (8 further changes for 7 claimed properties): %d of %d detected.\n' % (sum(1 for r in r1 if 'DETECTED (VIOLATION' in r[3]), len(r1), sum(1 for r in r2 if 'DETECTED (VIOLATION' in r[3]), len(r2), sum(1 for r in r3 if 'DETECTED (VIOLATION' in r[3]), len(r3), sum(1 for r in r4 if 'DETECTED (VIOLATION' in r[3]), len(r4)))
     f.write('\n%d of %d seeded changes are detected by a check; the others fall in the "Out" part of their property or in a not_applicable property (see DESIGN.md section 4).\n' % (n_det, len(rows)))
 print('written', len(rows))
